@@ -238,9 +238,10 @@ func (r *vgRun) fail(props, what string) {
 func (r *vgRun) prov(n int, deps []int) *vgProv {
 	r.nextP++
 	p := &vgProv{id: r.nextP, key: vgPool[n]}
-	for _, d := range deps {
+	for i, d := range deps {
 		k := vgPool[d]
-		p.deps = append(p.deps, &reflection.Dependency{Type: k.Type, Key: k.Key, Group: k.Group})
+		// whether a dependency is optional is irrelevant to the graph: it is an edge like any other
+		p.deps = append(p.deps, &reflection.Dependency{Type: k.Type, Key: k.Key, Group: k.Group, Optional: (r.nextP+i)%3 == 0})
 	}
 	return p
 }
